@@ -519,7 +519,7 @@ class Banana(protocol.Protocol):
             return
         msg = six.ensure_binary(msg)
         if len(msg) > SIZE_LIMIT:
-            msg = msg[:SIZE_LIMIT-10] + "..."
+            msg = msg[:SIZE_LIMIT-10] + b"..."
         int2b128(len(msg), self.transport.write)
         self.transport.write(ERROR)
         self.transport.write(msg)
